@@ -10,7 +10,7 @@
 import ast
 
 from ..loader import AnalysisError, dotted
-from ..astutil import walk_own, calls_in, norm, Defs, leaves, stmt_of, kwarg, need, returns_of
+from ..astutil import norm_block, walk_own, calls_in, norm, Defs, leaves, stmt_of, kwarg, need, returns_of
 from .. import cfg as cfgmod
 from ..effects import get_effects
 from ..variants import Witness
@@ -340,9 +340,9 @@ def rule_r6(p, res):
     ok = (left_is_idx and op == "LtE") or (not left_is_idx and op == "GtE")
     r.check(ok, gi, k, "the pipe must be re-opened whenever the requested frame is not strictly ahead of the cursor (`%s <= self.index`); with `%s` re-reading the frame just read "
             "returns the next frame of the stream" % (idx, norm(k)), {"reopen_test": norm(k)})
-    body = " ".join(norm(x) for x in ifs[0].body)
+    body = norm_block(ifs[0].body, " ")
     r.check(body == "self._open_pipe(frame=%s)" % idx, gi, ifs[0], "re-opening must seek to the requested frame")
-    els = "\n".join(norm(x) for x in ifs[0].orelse)
+    els = norm_block(ifs[0].orelse)
     r.check("to_trash = %s - self.index - 1" % idx in els and "if to_trash > 0:" in els and "self._trash_frames(to_trash)" in els, gi, ifs[0], "frames between the cursor and the request must be skipped (index - cursor - 1 of them)")
     r.check(norm(gi.node.body[-1]) == "return self._read_one_frame()", gi, gi.node, "exactly one frame is read after positioning")
     op_ = p.own_method("FFMpegVideoReader", "_open_pipe")
